@@ -95,9 +95,38 @@ def mc_text():
 _enc, _l2t = {}, {}
 
 
+_bystanders = []
+
+
+def bystanders():
+    """Other encoders / converters alive in the same process, built once before the first round trip with every
+    documented form of their options (preset names, booleans, dictionaries, each scheme and policy) and used once.
+    The round trip of one (scheme, policy) pair must not depend on which other objects exist."""
+    if _bystanders:
+        return
+    from pylatexenc.latexencode import UnicodeToLatexEncoder, unicode_to_latex
+    from pylatexenc.latex2text import LatexNodes2Text
+    for sls in ('macros', 'based-on-source', 'except-in-equations', True, False, None,
+                {'between-macro-and-chars': True, 'between-latex-constructs': False},
+                {'between-macro-and-chars': False, 'between-latex-constructs': False, 'after-comment': True, 'in-equations': True},
+                {'in-equations': {'between-macro-and-chars': False}}):
+        for mm in ('text', 'with-delimiters', 'verbatim', 'remove'):
+            o = LatexNodes2Text(strict_latex_spaces=sls, math_mode=mm, keep_comments=(mm == 'text'), keep_braced_groups=(mm == 'remove'))
+            o.latex_to_text('a \\alpha b {c} {d} $x$ %e\n')
+            _bystanders.append(o)
+    for prot in ('braces', 'braces-all', 'braces-almost-all', 'braces-after-macro', 'none'):
+        for pol in ('keep', 'replace', 'ignore', 'unihex'):
+            e = UnicodeToLatexEncoder(replacement_latex_protection=prot, unknown_char_policy=pol, non_ascii_only=(pol == 'ignore'),
+                                      unknown_char_warning=False)
+            e.unicode_to_latex('a\u00e9 \ue000 %')
+            unicode_to_latex('a\u00e9 \ue000 %', replacement_latex_protection=prot, unknown_char_policy=pol, unknown_char_warning=False)
+            _bystanders.append(e)
+
+
 def real_roundtrip(s, scheme, pol):
     from pylatexenc.latexencode import UnicodeToLatexEncoder
     from pylatexenc.latex2text import LatexNodes2Text
+    bystanders()
     if scheme not in _enc:
         _enc[scheme] = UnicodeToLatexEncoder(replacement_latex_protection=scheme, unknown_char_warning=False)
     if pol not in _l2t:
